@@ -61,11 +61,16 @@ def make_script(rng):
             # the model covers ASCII datagrams and datagrams that are not valid UTF-8 (ignored); valid non-ASCII text is exercised separately
             if is_ascii(d) or not valid_utf8(d):
                 out.append(("ctrl", rng.below(2 + len(defs)), d))
+        if rng.chance(1, 10):
+            # a well-formed command with ONE argument too many (e.g. the body of a reflected response): not that command - no effect
+            out.append(("ctrl", rng.below(2 + len(defs)), W.cmd(rng.choice(SURPLUS_CMDS))))
         if rng.chance(1, 8):
             out.append(("data", rng.below(2 + len(defs)), list(rng.bytes(rng.choice([0, 1, 4, 5, 6, 7, 8, 10, 11, 150, 154, 156, 158, 600])))))
     return defs, out
 
 
+SURPLUS_CMDS = ["CMD POWEROFF 0", "CMD POWERON 0", "CMD RXTUNE 0 941600", "CMD TXTUNE 0 896600", "CMD RFMUTE 1 1", "CMD SETFORMAT 1 1", "CMD SETTA 5 5",
+                "CMD SETPOWER 10 1", "CMD NOMTXPOWER 1", "CMD FAKE_DROP 5 1 1", "CMD FAKE_RSSI -60 5 5", "CMD MEASURE 0 935000"]
 BOUNDARY_CMDS = ["CMD FAKE_DROP 3 0", "CMD FAKE_DROP 0 0", "CMD FAKE_DROP 2 -1", "CMD FAKE_DROP -1", "CMD FAKE_DROP 1 1", "CMD FAKE_DROP 9999999999 1",
                  "CMD FAKE_TOA 10 -1", "CMD FAKE_TOA 10 0", "CMD FAKE_TOA -99999 99999", "CMD FAKE_CI 10 -1", "CMD FAKE_CI 99999 0", "CMD FAKE_RSSI -200 0", "CMD FAKE_RSSI -60 -1",
                  "CMD SETTA 64", "CMD SETTA -1", "CMD SETTA 0", "CMD SETPOWER -5", "CMD SETPOWER 1000", "CMD RFMUTE 2", "CMD RFMUTE -1", "CMD SETFORMAT 15", "CMD SETFORMAT 16",
